@@ -6,9 +6,10 @@ set -u
 export GOFLAGS=-mod=mod GOPROXY=off GOSUMDB=off GOTOOLCHAIN=local
 export HOME=${HOME:-/root}
 ROOT=$(dirname "$(dirname "$(realpath "$0")")")
+REPO=${VERIF_REPO_DIR:-/repo}
 mkdir -p "$ROOT/.build"
 # content key of everything the binary is built from: rebuild only when /repo or the simulator changed
-key=$( (cd /repo && find . -path ./.git -prune -o -type f \( -name '*.go' -o -name 'go.mod' -o -name 'go.sum' \) -print0 | sort -z | xargs -0 sha256sum; cd "$ROOT" && find sim tools -type f \( -name '*.go' -o -name 'go.mod' \) -print0 | sort -z | xargs -0 sha256sum) | sha256sum | cut -d' ' -f1)
+key=$( (cd $REPO && find . -path ./.git -prune -o -type f \( -name '*.go' -o -name 'go.mod' -o -name 'go.sum' \) -print0 | sort -z | xargs -0 sha256sum; cd "$ROOT" && find sim tools -type f \( -name '*.go' -o -name 'go.mod' \) -print0 | sort -z | xargs -0 sha256sum) | sha256sum | cut -d' ' -f1)
 if [ -x "$ROOT/.build/simcheck-instr" ] && [ "$(cat "$ROOT/.build/simcheck-instr.key" 2>/dev/null)" = "$key" ]; then
   echo "instrumented binary is up to date with /repo's working tree"
   exit 0
@@ -16,12 +17,12 @@ fi
 S=$(mktemp -d /tmp/verif-instr.XXXXXX)
 trap 'rm -rf "$S"' EXIT
 ( cd "$ROOT/tools/instrument" && go build -o "$ROOT/.build/instrument" . ) || { echo "cannot build the instrumenter" >&2; exit 2; }
-rsync -a --exclude .git /repo/ "$S/repo/" || exit 2
+rsync -a --exclude .git --exclude OUT $REPO/ "$S/repo/" || exit 2
 mkdir -p "$S/repo/simrt" && cp "$ROOT/tools/simrt/simrt.go" "$S/repo/simrt/" || exit 2
 sed -i 's/^go 1\.17$/go 1.21/' "$S/repo/go.mod"
 "$ROOT/.build/instrument" "$S/repo" > "$ROOT/.build/instrument.log" 2>&1 || { cat "$ROOT/.build/instrument.log" >&2; exit 2; }
 tail -1 "$ROOT/.build/instrument.log"
 sed "s#=> /repo#=> $S/repo#" "$ROOT/sim/go.mod" > "$S/go.instr.mod"
-cp /repo/go.sum "$S/go.instr.sum"
+cp $REPO/go.sum "$S/go.instr.sum"
 ( cd "$ROOT/sim" && go build -modfile="$S/go.instr.mod" -tags "verif instr" -o "$ROOT/.build/simcheck-instr" ./cmd/simcheck ) || { echo "instrumented build failed" >&2; exit 2; }
 echo "$key" > "$ROOT/.build/simcheck-instr.key"
